@@ -41,14 +41,16 @@ Hdr(rsv, der, prio, d, s, hop, mt, v, data) ==
      mtype |-> mt, vendor |-> v, data |-> data]
 
 \* ---- "ctl": every control octet, with address blocks / message type as its bits demand ------------------
-CtlMsgs == {<<0, NONE>>, <<19, NONE>>, <<128, 4660>>, <<255, 65535>>}
+\* (message types whose body may be the 4 payload octets: two network numbers, or opaque)
+CtlMsgs == {<<1, NONE>>, <<5, NONE>>, <<128, 4660>>, <<255, 65535>>}
 CtlCases == IF "ctl" \notin Grids THEN {} ELSE
-    UNION { { [cc |-> cc,
-               h  |-> Hdr(64 * Bit(cc, 6) + 16 * Bit(cc, 4), Bit(cc, 2) = 1, cc % 4, d, s, (cc * 37) % 256,
-                          m[1], m[2], PData(4))] :
-              d \in (IF Bit(cc, 5) = 1 THEN DShapes ELSE {NoAddr}),
-              s \in (IF Bit(cc, 3) = 1 THEN SShapes ELSE {NoAddr}),
-              m \in (IF Bit(cc, 7) = 1 THEN CtlMsgs ELSE {<<NONE, NONE>>}) } : cc \in 0..255 }
+    { [cc |-> t[1],
+       h  |-> Hdr(64 * Bit(t[1], 6) + 16 * Bit(t[1], 4), Bit(t[1], 2) = 1, t[1] % 4, t[2], t[3], (t[1] * 37) % 256,
+                  t[4][1], t[4][2], PData(4))] :
+      t \in { u \in (0..255) \X ({NoAddr} \cup DShapes) \X ({NoAddr} \cup SShapes) \X ({<<NONE, NONE>>} \cup CtlMsgs) :
+                /\ (u[2] = NoAddr) <=> (Bit(u[1], 5) = 0)
+                /\ (u[3] = NoAddr) <=> (Bit(u[1], 3) = 0)
+                /\ (u[4][1] = NONE) <=> (Bit(u[1], 7) = 0) } }
 
 \* ---- "hdr": DADR shape x hop count x SADR shape x message kind x payload length -------------------------
 HdrMsgs == {<<NONE, NONE>>, <<0, NONE>>, <<127, NONE>>, <<128, 0>>, <<255, 65535>>}
@@ -58,15 +60,15 @@ HdrCases == IF "hdr" \notin Grids THEN {} ELSE
         dh \in {<<NoAddr, NONE>>} \cup (DShapes \X Hops),
         s  \in {NoAddr} \cup SShapes,
         m  \in HdrMsgs,
-        n  \in {0, 3} }
+        n  \in {0, 2} }
 
 \* ---- "mt": every message type ----------------------------------------------------------------------------
 Ctx == { <<NoAddr, NoAddr, NONE, FALSE, 0>>,
          <<Global, NoAddr, 255, TRUE, 1>>,
          <<Station(260, PMac(6, 64)), Station(7, PMac(1, 160)), 1, FALSE, 3>> }
 MtCases == IF "mt" \notin Grids THEN {} ELSE
-    UNION { { Hdr(0, x[4], x[5], x[1], x[2], x[3], mt, v, PData(2)) :
-              x \in Ctx, v \in (IF mt >= 128 THEN Vendors ELSE {NONE}) } : mt \in 0..255 }
+    { Hdr(0, t[2][4], t[2][5], t[2][1], t[2][2], t[2][3], t[1], t[3], PData(2)) :
+      t \in { u \in (0..255) \X Ctx \X ({NONE} \cup Vendors) : (u[3] = NONE) <=> (u[1] < 128) } }
 
 \* ---- "msg": the 12 messages ------------------------------------------------------------------------------
 InfoPats == { <<0, 0, 0, 0, 0>>, <<1, 1, 1, 1, 1>>, <<255, 255, 255, 255, 255>>, <<0, 1, 255, 1, 0>>, <<255, 0, 1, 0, 255>> }
@@ -99,41 +101,43 @@ BadSources == { [k |-> "global", net |-> 65535, mac |-> <<>>], [k |-> "bcast", n
               \cup { [k |-> "station", net |-> 65535, mac |-> PMac(l, 160)] : l \in BadMacLens }
 SrcTag(s) == IF s.net = 65535 /\ s.mac = <<>> THEN "src-global" ELSE IF s.mac = <<>> THEN "src-bcast" ELSE "src-ffff"
 
-BadCases == IF "bad" \notin Grids THEN {} ELSE
-         UNION { { [o |-> SubSeq(Enc(h), 1, k), tag |-> "trunc"] : k \in 0..(HeaderLen(h) - 1) } : h \in BaseHdrs }
-    \cup { [o |-> <<v>> \o Tail(Enc(h)), tag |-> "version"] : h \in BaseHdrs, v \in {0, 2, 3, 17, 129, 255} }
-    \cup { [o |-> Enc([h EXCEPT !.sadr = s]), tag |-> SrcTag(s)] : h \in BaseHdrs, s \in BadSources }
-    \cup { [o |-> Enc([h EXCEPT !.dadr = [k |-> "station", net |-> 65535, mac |-> PMac(l, 64)]]), tag |-> "dnet-ffff-dadr"] :
-             h \in {x \in BaseHdrs : x.dadr # NoAddr}, l \in BadMacLens }
+MaxHL == 530              \* no header is longer: 2 + (4 + 255) + (3 + 255) + 1 + 3
+\* (four separate sets, concatenated as sequences below: TLC's \cup and UNION are quadratic on big sets)
+BadTrunc == IF "bad" \notin Grids THEN {} ELSE
+    { [o |-> SubSeq(Enc(p[1]), 1, p[2]), tag |-> "trunc"] : p \in { q \in BaseHdrs \X (0..MaxHL) : q[2] < HeaderLen(q[1]) } }
+BadVersion == IF "bad" \notin Grids THEN {} ELSE
+    { [o |-> <<v>> \o Tail(Enc(h)), tag |-> "version"] : h \in BaseHdrs, v \in {0, 2, 3, 17, 129, 255} }
+BadSource == IF "bad" \notin Grids THEN {} ELSE
+    { [o |-> Enc([h EXCEPT !.sadr = s]), tag |-> SrcTag(s)] : h \in BaseHdrs, s \in BadSources }
+BadDnet == IF "bad" \notin Grids THEN {} ELSE
+    { [o |-> Enc([h EXCEPT !.dadr = [k |-> "station", net |-> 65535, mac |-> PMac(l, 64)]]), tag |-> "dnet-ffff-dadr"] :
+        h \in {x \in BaseHdrs : x.dadr # NoAddr}, l \in BadMacLens }
 RefusedTags == {"trunc", "version", "src-global", "src-bcast", "src-ffff"}
 
-\* ---- "cut": every prefix (from the end of the header on) of small complete messages -----------------------
+\* ---- "cut": every prefix of small complete messages (truncated header, then truncated body) -----------------
 CutBodies == Bodies({0, 1, 2, 3}, {0, 1, 2}, { <<0, 0>>, <<1, 2>>, <<3, 0>> })
+CutMsgs(ctxs) == { Msg(x, b) : x \in ctxs, b \in CutBodies }
 CutCases == IF "cut" \notin Grids THEN {} ELSE
-    UNION { { [o |-> SubSeq(EncNPDU(r), 1, k), tag |-> "cut"] : k \in 0..Len(EncNPDU(r)) } :
-            r \in { Msg(x, b) : x \in {y \in Ctx : y[2] = NoAddr}, b \in CutBodies } }
+    { [o |-> SubSeq(EncNPDU(p[1]), 1, p[2]), tag |-> "cut"] :
+        p \in { q \in CutMsgs({y \in Ctx : y[2] = NoAddr}) \X (0..40) : q[2] <= Len(EncNPDU(q[1])) } }
     \cup  \* and bodies followed by extra octets
-    { [o |-> EncNPDU(r) \o PData(n), tag |-> "trail"] :
-            r \in { Msg(<<NoAddr, NoAddr, NONE, FALSE, 0>>, b) : b \in CutBodies }, n \in {1, 2} }
+    { [o |-> EncNPDU(r) \o PData(n), tag |-> "trail"] : r \in CutMsgs({<<NoAddr, NoAddr, NONE, FALSE, 0>>}), n \in {1, 2} }
 
 \* ---- strings ---------------------------------------------------------------------------------------------
-StrCases == IF "str" \notin Grids THEN {} ELSE UNION { { [o |-> s, tag |-> "str"] : s \in [1..k -> Alphabet] } : k \in 0..StrLen }
+\* (no UNION over big sets: TLC's UNION is quadratic in the number of elements)
+Strip(s) == SelectSeq(s, LAMBDA x : x # NONE)
+StrCases == IF "str" \notin Grids THEN {} ELSE
+    { [o |-> Strip(s), tag |-> "str"] :
+        s \in { t \in [1..StrLen -> Alphabet \cup {NONE}] : \A j \in 1..(StrLen - 1) : t[j] = NONE => t[j + 1] = NONE } }
 V1Cases  == IF "v1" \notin Grids THEN {} ELSE { [o |-> <<1, a, b>>, tag |-> "v1"] : a \in 0..255, b \in 0..255 }
 \* "ver" is grown by Next (one octet per step) so that TLC's workers share the 16.7 M strings
 VerCases == IF "ver" \notin Grids THEN {} ELSE { <<v>> : v \in (0..255) \ {1} }
 
-CasesOf(g) ==
-    CASE g = "ctl" -> CtlCases
-      [] g = "hdr" -> HdrCases
-      [] g = "mt"  -> MtCases
-      [] g = "msg" -> MsgCases
-      [] g = "bad" -> BadCases
-      [] g = "cut" -> CutCases
-      [] g = "str" -> StrCases
-      [] g = "v1"  -> V1Cases
-      [] g = "ver" -> VerCases
-\* a case is [g |-> grid, x |-> the case proper]
-Cases == UNION { { [g |-> g, x |-> x] : x \in CasesOf(g) } : g \in Grids }
+Tagged(g, S) == SetToSeq({ [g |-> g, x |-> x] : x \in S })
+\* a case is [g |-> grid, x |-> the case proper]; all cases of this run except those of "ver", as one sequence
+CaseSeq ==    Tagged("ctl", CtlCases) \o Tagged("hdr", HdrCases) \o Tagged("mt", MtCases) \o Tagged("msg", MsgCases)
+           \o Tagged("bad", BadTrunc) \o Tagged("bad", BadVersion) \o Tagged("bad", BadSource) \o Tagged("bad", BadDnet)
+           \o Tagged("cut", CutCases) \o Tagged("str", StrCases) \o Tagged("v1", V1Cases)
 
 HdrGrids == {"hdr", "mt"}
 DecGrids == {"bad", "cut", "str", "v1"}
@@ -149,14 +153,15 @@ Out(cs) ==
                            [tag |-> g, enc |-> TRUE, r |-> x, o |-> o, h |-> d.h, b |-> d.b]
       [] g \in DecGrids -> LET d == DecBoth(x.o) IN [tag |-> x.tag, enc |-> FALSE, o |-> x.o, h |-> d.h, b |-> d.b]
 
-OutSeq == LET s == SetToSeq({cs \in Cases : cs.g # "ver"}) IN [i \in 1..Len(s) |-> Out(s[i])]
+OutSeq == [i \in 1..Len(CaseSeq) |-> Out(CaseSeq[i])]
 
 ASSUME Emit == \/ "OUT_FILE" \notin DOMAIN IOEnv
                \/ Grids = {"ver"}
                \/ ndJsonSerialize(IOEnv.OUT_FILE, OutSeq)
 
 \* ---- theorems checked by TLC on every case ---------------------------------------------------------------
-Init == c \in Cases
+Init == \/ \E i \in 1..Len(CaseSeq) : c = CaseSeq[i]
+        \/ c \in { [g |-> "ver", x |-> x] : x \in VerCases }
 Next == IF c.g = "ver" /\ Len(c.x) < 3
         THEN \E a \in 0..255 : c' = [c EXCEPT !.x = Append(@, a)]
         ELSE UNCHANGED c
